@@ -622,6 +622,9 @@ class PlanJoinTablesQuery:
                 self.add_step_to_partition(step)
                 return step
 
+            # next step can't be partitioned: steps planned after it must not end up inside the partition
+            self.close_partition()
+
         elif partition_size is not None:
             # create partition
 
